@@ -344,13 +344,13 @@ def gen_l3_tasks(r, tier):
     desc = {"array": [2, 1, 0], "bytes": [65, 33, 0], "by_name": {}}
     mixed = {"array": [0, 1, 2], "bytes": [0, 65, 1024], "by_name": {"a0": [1, 3, 2]}}
     if tier == "quick":
-        plans = [(None, [], [(1, 2, 1), (0, 1, 2)], ["mod", "sdiv", "mul"], L.DEFAULT_LENS, [(0, 1), (0, 0)]),
-                 ("0x01", ["--solver", "z3"], [(1, 1, 0), grid[r.randrange(9)]], ["smod", "div"], desc, [(0, 0), (0, 1), (1, 0)]),
-                 (None, [], [(2, 0, 1)], [], mixed, [(0, 1), (0, 2), (0, 0)])]
+        plans = [(None, [], [(1, 2, 1), (0, 1, 2)], ["mod", "sdiv", "mul"], L.DEFAULT_LENS, [("array", 1), ("bytes", 1)]),
+                 ("0x01", ["--solver", "z3"], [(1, 1, 0), grid[r.randrange(9)]], ["smod", "div"], desc, [("array", 0), ("bytes", 0), ("bytes", 1)]),
+                 (None, [], [(2, 0, 1)], [], mixed, [("array", 1), ("array", 2), ("bytes", 2)])]
     else:
         plans = [(L.CODE_OPTIONS[k % len(L.CODE_OPTIONS)], [[], ["--solver", "z3"], ["--storage-layout", "generic"]][k % 3], grid[3 * (k % 3):3 * (k % 3) + 3],
                   ["div", "mod", "sdiv", "smod", "mul", None], [L.DEFAULT_LENS, desc, mixed, {"array": [3, 0, 1], "bytes": [32, 64, 1], "by_name": {"a1": [2, 1]}}][k % 4],
-                  [(a, b) for a in range(2) for b in range(3)]) for k in range(9)]
+                  [(a, b) for a in ("array", "bytes") for b in range(3)]) for k in range(9)]
     for co, extra, combos, ops, lens, picks in plans:
         d = L.gen_directed_contract(r, co, n_each=2 if tier == "quick" else 4, combos=combos, ops=ops, lens=lens, picks=picks)
         tasks.append({"desc": d, "options": (["--panic-error-codes", co] if co else []) + extra + L.lens_options(lens) + ["--solver-timeout-assertion", "15s"], "code_opt": co,
